@@ -12,6 +12,8 @@
 package c07
 
 import (
+	"crypto/sha256"
+	"encoding/hex"
 	"encoding/json"
 	"fmt"
 	"os"
@@ -37,24 +39,27 @@ type shapeRun struct {
 	pre      Resolved
 	preDump  *sqlref.Dump
 	trace    []TraceLine
-	planOps  []string
 	reapRes  OpResult
+	depth    int
+	mu       sync.Mutex
+	seen     map[string]*stateInfo
 }
 
 // Case identifies one enumerated crash case.
 type Case struct {
-	Shape  Shape  `json:"shape"`
-	N      int    `json:"crash_n"`          // hook hit of Reap() at which the first child exits (0 = no crash)
-	M      int    `json:"recovery_crash_m"` // hook hit of the recovery open at which the second child exits (0 = none)
-	Point  string `json:"point,omitempty"`  // name of the first crash point
-	Point2 string `json:"point2,omitempty"` // name of the second crash point
+	Shape Shape `json:"shape"`
+	// Path[0] is the hook hit of Store.Reap() at which the first child exits,
+	// Path[i>0] the hook hit of the i-th recovering snapshot.NewStore.
+	Path   []int    `json:"crash_path"`
+	Points []string `json:"points,omitempty"`
 }
 
 type driver struct {
-	c    *vf.Ctx
-	root string
-	mu   sync.Mutex
-	pts  map[string]int64
+	c      *vf.Ctx
+	root   string
+	mu     sync.Mutex
+	pts    map[string]int64
+	replay bool
 }
 
 func (d *driver) child(logPath string, env []string, args ...string) ([]byte, int, bool) {
@@ -117,7 +122,7 @@ func shapes(c *vf.Ctx) []Shape {
 		// everything at once
 		out = append(out, Shape{Seed: seed(), Groups: []Group{{Incs: []int{1}}, {FullWALs: 1 + r.IntN(2), Incs: []int{1 + r.IntN(3), 1 + r.IntN(3), 1}}}})
 	}
-	total := c.N(6, 30)
+	total := c.N(6, 24)
 	for len(out) < total {
 		out = append(out, randShape(r, seed()))
 	}
@@ -187,7 +192,7 @@ func (d *driver) prepare(sr *shapeRun) error {
 		c.Violation("reap:fails-without-crash", fmt.Sprintf("Reap() of shape %s failed without any fault: %s", sr.sh.Key(), rr.Err), Case{Shape: sr.sh})
 		return fmt.Errorf("reap failed")
 	}
-	if key, what := d.judge(sr, filepath.Join(rdir, "store"), filepath.Join(rdir, "out.db"), logp); key != "" {
+	if key, what, _ := d.judge(sr, filepath.Join(rdir, "store"), rdir, logp); key != "" {
 		c.Violation("no-crash:"+key, fmt.Sprintf("shape %s, uninterrupted Reap(): %s", sr.sh.Key(), what), Case{Shape: sr.sh})
 	} else {
 		c.Held(1)
@@ -196,35 +201,47 @@ func (d *driver) prepare(sr *shapeRun) error {
 	return nil
 }
 
-// judge runs the final open in a child and evaluates the oracle. It returns
-// ("", "") when the property held.
-func (d *driver) judge(sr *shapeRun, store, outDB, logp string, env ...string) (key, what string) {
+// judge performs the next start on store in a child (snapshot.NewStore, which
+// runs check() and any resume, then List, Open, Restore) and evaluates the
+// oracle. It returns ("", "") when the property held, and the number of hook
+// hits made by the recovering NewStore (those before the first stream.* hit).
+func (d *driver) judge(sr *shapeRun, store, scratch, logp string) (key, what string, hits int) {
+	outDB := filepath.Join(scratch, "out.db")
 	os.Remove(outDB)
-	out, code, ok := d.child(logp, env, "resolve", store, outDB)
+	tr := filepath.Join(scratch, "trace-judge")
+	os.Remove(tr)
+	out, code, ok := d.child(logp, []string{"VERIF_TRACE=" + tr}, "resolve", store, outDB)
 	if !ok {
-		return "inconclusive", "final open timed out"
+		return "inconclusive", "final open timed out", 0
+	}
+	lines, _ := ReadTrace(tr)
+	for _, l := range lines {
+		if strings.HasPrefix(l.Name, "stream.") {
+			break
+		}
+		hits++
 	}
 	res, jok := parseJSON[Resolved](out)
 	if code != 0 || !jok {
-		return "final-open-dies", fmt.Sprintf("the process opening the store exited with code %d: %s", code, Tail(logp, 500))
+		return "open-dies", fmt.Sprintf("the process opening the store exited with code %d: %s", code, Tail(logp, 500)), hits
 	}
 	if !res.OK {
-		return "final-" + res.Stage + "-fails", fmt.Sprintf("%s failed after recovery: %s", res.Stage, res.Err)
+		return res.Stage + "-fails", fmt.Sprintf("%s failed: %s", res.Stage, res.Err), hits
 	}
 	if res.Index != sr.pre.Index || res.Term != sr.pre.Term {
-		return "newest-index-term-changed", fmt.Sprintf("newest snapshot is (index %d, term %d), before the reap it was (%d, %d)", res.Index, res.Term, sr.pre.Index, sr.pre.Term)
+		return "newest-index-term-changed", fmt.Sprintf("newest snapshot is (index %d, term %d), before the reap it was (%d, %d)", res.Index, res.Term, sr.pre.Index, sr.pre.Term), hits
 	}
 	dump, err := sqlref.DumpFile(outDB)
 	if err != nil {
-		return "restored-db-unreadable", fmt.Sprintf("restored database cannot be dumped: %v", err)
+		return "restored-db-unreadable", fmt.Sprintf("restored database cannot be dumped: %v", err), hits
 	}
 	if dump.Hash() != sr.preDump.Hash() {
-		return "restored-content-changed", "database restored from the newest snapshot differs from before the reap: " + sqlref.Diff(sr.preDump, dump)
+		return "restored-content-changed", "database restored from the newest snapshot differs from before the reap: " + sqlref.Diff(sr.preDump, dump), hits
 	}
 	if lo := Leftovers(store); len(lo) > 0 {
-		return "leftover-after-open", fmt.Sprintf("after a successful open the store still holds %v", lo)
+		return "leftover-after-open", fmt.Sprintf("after a successful open the store still holds %v", lo), hits
 	}
-	return "", ""
+	return "", "", hits
 }
 
 func readPlanOps(store string) []string {
@@ -268,123 +285,190 @@ func (d *driver) countPoint(p string) {
 	d.mu.Unlock()
 }
 
-// firstLevel runs the cases with first crash n: the single-crash case and the
-// double-crash cases (all m in thorough, a seeded sample in quick).
-func (d *driver) firstLevel(sr *shapeRun, n int, onlyM int) {
+// stateInfo is what is known about one distinct on-disk state of a shape.
+type stateInfo struct {
+	ready    chan struct{} // closed once the verdict of an open from this state is known
+	key      string
+	hits     int // hook hits of the recovering snapshot.NewStore
+	expanded int // largest remaining crash depth this state was expanded with
+}
+
+// treeHash identifies the on-disk state of a store directory: names and file
+// contents, with the things that differ between two runs of the same reap
+// normalised away: the absolute location W (embedded in REAP_PLAN) and the
+// millisecond timestamp inside the ID chosen for the consolidated snapshot.
+func treeHash(W string) string {
+	newID := ""
+	if b, err := os.ReadFile(filepath.Join(W, "REAP_PLAN")); err == nil {
+		var p struct {
+			Ops []struct {
+				Type string `json:"type"`
+				Dst  string `json:"dst"`
+			} `json:"ops"`
+		}
+		if json.Unmarshal(b, &p) == nil && len(p.Ops) > 0 && p.Ops[len(p.Ops)-1].Type == "rename" {
+			newID = filepath.Base(p.Ops[len(p.Ops)-1].Dst)
+		}
+	}
+	norm := func(x string) string {
+		x = strings.ReplaceAll(x, W, "@W@")
+		if newID != "" {
+			x = strings.ReplaceAll(x, newID, "@NEWID@")
+		}
+		return x
+	}
+	var lines []string
+	filepath.Walk(W, func(p string, info os.FileInfo, err error) error {
+		if err != nil {
+			return nil
+		}
+		rel, _ := filepath.Rel(W, p)
+		if info.IsDir() {
+			lines = append(lines, "D "+norm(rel))
+			return nil
+		}
+		if strings.HasSuffix(p, "-shm") {
+			return nil // SQLite shared-memory index, rebuilt on open
+		}
+		b, _ := os.ReadFile(p)
+		base := filepath.Base(p)
+		if strings.HasPrefix(base, "REAP_PLAN") || base == "meta.json" {
+			b = []byte(norm(string(b)))
+		}
+		lines = append(lines, fmt.Sprintf("F %s %x", norm(rel), sha256.Sum256(b)))
+		return nil
+	})
+	sort.Strings(lines)
+	h := sha256.Sum256([]byte(strings.Join(lines, "\n")))
+	return hex.EncodeToString(h[:12])
+}
+
+// explore enumerates the crashes of one step: level 1 crashes Store.Reap() on a
+// copy of the pristine store, deeper levels crash the recovering
+// snapshot.NewStore on a copy of the previously crashed state. An open depends
+// on nothing but the directory contents, so a crashed state already seen for
+// this shape inherits its verdict and is expanded again only if more crash
+// depth remains than when it was expanded before.
+func (d *driver) explore(sr *shapeRun, W, cdir, state string, hits int, path []int, points []string, only []int) {
 	c := d.c
-	cdir := filepath.Join(sr.dir, fmt.Sprintf("n%03d", n))
-	defer os.RemoveAll(cdir)
-	W := filepath.Join(cdir, "store")
 	logp := filepath.Join(cdir, "log")
-	if err := ResetDir(sr.pristine, W, sqlref.CopyTree); err != nil {
-		c.Inconclusive("copy failed: " + err.Error())
-		return
+	level := len(path) + 1
+	op := "reap"
+	if level > 1 {
+		op = "open"
 	}
-	tr1 := filepath.Join(cdir, "trace1")
-	_, code, ok := d.child(logp, []string{fmt.Sprintf("VERIF_CRASH_N=%d", n), "VERIF_TRACE=" + tr1}, "reap", W)
-	if !ok {
-		c.Eval(1)
-		c.Inconclusive("reap child timed out")
-		return
-	}
-	if code != 197 {
-		c.Eval(1)
-		c.Inconclusive(fmt.Sprintf("crash point %d not reached (exit %d)", n, code))
-		return
-	}
-	_, crashed := ReadTrace(tr1)
-	ops := readPlanOps(W)
-	p1 := label(crashed, ops, 0)
-	d.countPoint("reap:" + p1)
-	c.Count("first_level_crashes", 1)
-	crashedCopy := filepath.Join(cdir, "crashed")
-	if err := sqlref.CopyTree(W, crashedCopy); err != nil {
-		c.Inconclusive("copy failed: " + err.Error())
-		return
-	}
-
-	// Single crash: the next start (snapshot.NewStore = check() + resume, then
-	// list/open/restore) in one traced child; the hook hits that precede the
-	// first stream.acquired are those of the recovering NewStore.
-	tr2 := filepath.Join(cdir, "trace2")
-	recoveryHits := func() int {
-		lines, _ := ReadTrace(tr2)
-		k := 0
-		for _, l := range lines {
-			if strings.HasPrefix(l.Name, "stream.") {
-				break
-			}
-			k++
-		}
-		return k
-	}
-	nrec := 0
-	if onlyM == 0 {
-		cs := Case{Shape: sr.sh, N: n, Point: p1}
-		c.Eval(1)
-		c.Nontrivial(fmt.Sprintf("%s/n%d", sr.sh.Key(), n))
-		key, what := d.judge(sr, W, filepath.Join(cdir, "out.db"), logp, "VERIF_TRACE="+tr2)
-		nrec = recoveryHits()
-		if key == "inconclusive" {
-			c.Inconclusive(what)
-		} else if key != "" {
-			c.Violation("single-crash:"+key+":"+p1, fmt.Sprintf("shape %s, crash at hit %d (%s): %s", sr.sh.Key(), n, crashed, what), cs)
-		} else {
-			c.Held(1)
-		}
-		c.Count("recovery_hook_hits", int64(nrec))
-		c.Sample(map[string]any{"shape": sr.sh.Key(), "snapshots": sr.gen.Snaps, "plan_ops": ops, "crash_hit": n, "crash_point": crashed, "recovery_hook_hits": nrec, "reap_hook_hits": len(sr.trace)})
-	} else {
-		// replay of one double-crash case: no verdict for the single crash
-		d.child(logp, []string{"VERIF_TRACE=" + tr2}, "open", W)
-		nrec = recoveryHits()
-	}
-
-	// Double crash: crash the recovery open at each of its hook hits.
-	var ms []int
+	var ns []int
 	switch {
-	case onlyM > 0:
-		ms = []int{onlyM}
-	case c.Quick():
-		if nrec > 0 {
-			ms = []int{1 + c.Rand(uint64(n)*7919+sr.sh.Seed%1000).IntN(nrec)}
+	case len(only) > 0:
+		ns = []int{only[0]}
+	case level > 1 && c.Quick() && hits > 2:
+		// quick: two seeded crash points of the recovery run per state
+		r := c.Rand(uint64(path[0])*7919 + sr.sh.Seed%1000)
+		a := 1 + r.IntN(hits)
+		b := 1 + r.IntN(hits-1)
+		if b >= a {
+			b++
 		}
+		ns = []int{a, b}
+		sort.Ints(ns)
 	default:
-		for m := 1; m <= nrec; m++ {
-			ms = append(ms, m)
+		for n := 1; n <= hits; n++ {
+			ns = append(ns, n)
 		}
 	}
-	for _, m := range ms {
-		if err := ResetDir(crashedCopy, W, sqlref.CopyTree); err != nil {
+	for _, n := range ns {
+		if err := ResetDir(state, W, sqlref.CopyTree); err != nil {
 			c.Inconclusive("copy failed: " + err.Error())
-			continue
+			return
 		}
-		tr3 := filepath.Join(cdir, fmt.Sprintf("trace3-%d", m))
-		_, code, ok := d.child(logp, []string{fmt.Sprintf("VERIF_CRASH_N=%d", m), "VERIF_TRACE=" + tr3}, "open", W)
+		tr := filepath.Join(cdir, fmt.Sprintf("trace-l%d", level))
+		os.Remove(tr)
+		_, code, ok := d.child(logp, []string{fmt.Sprintf("VERIF_CRASH_N=%d", n), "VERIF_TRACE=" + tr}, op, W)
 		c.Eval(1)
 		if !ok {
-			c.Inconclusive("recovery child timed out")
+			c.Inconclusive(op + " child timed out")
 			continue
 		}
 		if code != 197 {
-			c.Inconclusive(fmt.Sprintf("recovery crash point not reached (exit %d)", code))
+			c.Inconclusive(fmt.Sprintf("%s crash point not reached (exit %d)", op, code))
 			continue
 		}
-		_, crashed2 := ReadTrace(tr3)
-		// in the recovery run the plan ops are executed once, same ordinals
-		p2 := label(crashed2, ops, 0)
-		d.countPoint("recovery:" + p2)
-		c.Count("second_level_crashes", 1)
-		c.Nontrivial(fmt.Sprintf("%s/n%d/m%d", sr.sh.Key(), n, m))
-		cs := Case{Shape: sr.sh, N: n, M: m, Point: p1, Point2: p2}
-		if key, what := d.judge(sr, W, filepath.Join(cdir, "out.db"), logp); key == "inconclusive" {
-			c.Inconclusive(what)
-		} else if key != "" {
-			c.Violation("double-crash:"+key+":"+p1+"+"+p2, fmt.Sprintf("shape %s, crash at reap hit %d (%s) then at recovery hit %d (%s): %s", sr.sh.Key(), n, crashed, m, crashed2, what), cs)
-		} else {
-			c.Held(1)
+		_, crashed := ReadTrace(tr)
+		ops := readPlanOps(W)
+		p := label(crashed, ops, 0)
+		d.countPoint(fmt.Sprintf("L%d-%s:%s", level, op, p))
+		c.Count(fmt.Sprintf("crashes_level_%d", level), 1)
+		npath := append(append([]int{}, path...), n)
+		npoints := append(append([]string{}, points...), p)
+		cs := Case{Shape: sr.sh, Path: npath, Points: npoints}
+		c.Nontrivial(fmt.Sprintf("%s/%v", sr.sh.Key(), npath))
+
+		remaining := sr.depth - level
+		hash := treeHash(W)
+		sr.mu.Lock()
+		info := sr.seen[hash]
+		claimed := info == nil
+		if claimed {
+			info = &stateInfo{ready: make(chan struct{}), expanded: -1}
+			sr.seen[hash] = info
 		}
-		os.Remove(tr3)
+		sr.mu.Unlock()
+		if d.replay {
+			claimed = true
+		}
+		next := filepath.Join(cdir, fmt.Sprintf("state-l%d", level))
+		if remaining > 0 {
+			if err := ResetDir(W, next, sqlref.CopyTree); err != nil {
+				c.Inconclusive("copy failed: " + err.Error())
+				if claimed && !d.replay {
+					info.key = "inconclusive"
+					close(info.ready)
+				}
+				continue
+			}
+		}
+		if claimed {
+			key, what, h := d.judge(sr, W, cdir, logp)
+			info.key, info.hits = key, h
+			if !d.replay {
+				close(info.ready)
+			}
+			c.Count("distinct_states_judged", 1)
+			c.Count("recovery_hook_hits", int64(h))
+			switch {
+			case key == "inconclusive":
+				c.Inconclusive(what)
+			case key != "":
+				c.Violation(key+":after="+p, fmt.Sprintf("shape %s, crashes at %v (hits %v): %s", sr.sh.Key(), npoints, npath, what), cs)
+			default:
+				c.Held(1)
+			}
+			c.Sample(map[string]any{"shape": sr.sh.Key(), "snapshots": sr.gen.Snaps, "plan_ops": ops, "crash_path": npath, "points": npoints, "recovery_hook_hits": h, "reap_hook_hits": len(sr.trace)})
+		} else {
+			<-info.ready
+			c.Count("verdict_inherited_from_identical_state", 1)
+			if info.key == "" {
+				c.Held(1)
+			}
+		}
+		if remaining <= 0 {
+			continue
+		}
+		sr.mu.Lock()
+		expand := info.expanded < remaining || d.replay
+		if expand {
+			info.expanded = remaining
+		}
+		sr.mu.Unlock()
+		if !expand {
+			c.Count("subtrees_pruned_identical_state", 1)
+			continue
+		}
+		var o []int
+		if len(only) > 1 {
+			o = only[1:]
+		}
+		d.explore(sr, W, cdir, next, info.hits, npath, npoints, o)
 	}
 }
 
@@ -410,13 +494,16 @@ func run(c *vf.Ctx) {
 			c.Logf("replay: %v", err)
 			return
 		}
-		sr := &shapeRun{sh: rp.Case.Shape, dir: filepath.Join(root, "replay")}
+		d.replay = true
+		sr := &shapeRun{sh: rp.Case.Shape, dir: filepath.Join(root, "replay"), depth: len(rp.Case.Path), seen: map[string]*stateInfo{}}
 		if err := d.prepare(sr); err != nil {
 			c.Logf("replay prepare: %v", err)
 			return
 		}
-		if rp.Case.N > 0 {
-			d.firstLevel(sr, rp.Case.N, rp.Case.M)
+		if len(rp.Case.Path) > 0 {
+			cdir := filepath.Join(sr.dir, "sub")
+			os.MkdirAll(cdir, 0755)
+			d.explore(sr, filepath.Join(cdir, "store"), cdir, sr.pristine, len(sr.trace), nil, nil, rp.Case.Path)
 		}
 		c.Require(1, 0)
 		return
@@ -426,7 +513,7 @@ func run(c *vf.Ctx) {
 	par := c.N(8, 12)
 	var runs []*shapeRun
 	for i, sh := range shs {
-		runs = append(runs, &shapeRun{sh: sh, dir: filepath.Join(root, fmt.Sprintf("s%02d", i))})
+		runs = append(runs, &shapeRun{sh: sh, dir: filepath.Join(root, fmt.Sprintf("s%02d", i)), depth: c.N(2, 3), seen: map[string]*stateInfo{}})
 	}
 	// generate + record (parallel)
 	sem := make(chan struct{}, par)
@@ -475,7 +562,10 @@ func run(c *vf.Ctx) {
 		go func() {
 			defer wg.Done()
 			for t := range ch {
-				d.firstLevel(t.sr, t.n, 0)
+				cdir := filepath.Join(t.sr.dir, fmt.Sprintf("n%03d", t.n))
+				os.MkdirAll(cdir, 0755)
+				d.explore(t.sr, filepath.Join(cdir, "store"), cdir, t.sr.pristine, len(t.sr.trace), nil, nil, []int{t.n})
+				os.RemoveAll(cdir)
 			}
 		}()
 	}
